@@ -715,7 +715,37 @@ pub fn gen_c12_mixed(t: &mut Tape) -> AstCase {
         cfg.now_idx = 3 + t.below(2);
         cfg.targets = 7;
     }
+    let mut doc = doc;
+    if t.chance(20) {
+        let mut next_id = 900;
+        plant_inline_pair(&mut doc.nodes, t, &mut next_id);
+    }
     AstCase { doc, spell, cfg }
+}
+
+/// Into the body of some unwrap-block: a line that is only an (indented) inline element followed by blanks, and below it a
+/// line that begins at column 0 or 1 with an inline element followed by code. After removal the first line is
+/// whitespace-only and the second begins with a seam: two tidied positions whose ranges are not in ascending order.
+fn plant_inline_pair(nodes: &mut Vec<Node>, t: &mut Tape, next_id: &mut usize) -> bool {
+    for n in nodes.iter_mut() {
+        if let Node::Block { elem, kids, .. } = n {
+            if elem.unwrap && kids.len() >= 3 && t.chance(60) {
+                let at = 1 + t.below(kids.len() - 1);
+                let mk = |id: usize| astgen::Elem { id, cond: astgen::Cond::Rm(0), skip: false, unwrap: false, style: 0 };
+                let ind = " ".repeat(2 + 2 * t.below(4));
+                let a = Node::Inline { pre: ind, elem: mk(*next_id), content: "m".into(), post: t.s(&["  ", " ", "", "\t"]).to_string() };
+                let b = Node::Inline { pre: t.s(&["", " "]).to_string(), elem: mk(*next_id + 1), content: "m".into(), post: format!("d(); P{}", *next_id) };
+                *next_id += 2;
+                kids.insert(at, b);
+                kids.insert(at, a);
+                return true;
+            }
+            if plant_inline_pair(kids, t, next_id) {
+                return true;
+            }
+        }
+    }
+    false
 }
 
 /// C12 where lines may be partly removed (inline elements): the text after removal is split into lines, every
@@ -831,6 +861,8 @@ pub fn oracle_c12_mixed(c: &AstCase, obs: &mut Obs, kf1: bool, kf7: bool) -> Ver
     let rtext = String::from_utf8_lossy(&rb).to_string();
     // expected non-blank lines
     let mut exp: Vec<(String, bool)> = vec![]; // (text, indentation asserted?)
+    // for lines inside an unwrapped body: the leading blanks the line has in the text after removal
+    let mut in_body_lead: Vec<Option<usize>> = vec![];
     let mut pos = 0usize;
     let mut prev_blank = false;
     let mut first_nonblank_seen = false;
@@ -890,6 +922,7 @@ pub fn oracle_c12_mixed(c: &AstCase, obs: &mut Obs, kf1: bool, kf7: bool) -> Ver
             obs.class("body-line-begins-with-inline-removal");
         }
         exp.push((text, assert_indent));
+        in_body_lead.push(if ds.is_empty() { None } else { Some(li) });
         prev_blank = false;
     }
     let out = match call_clean(src, &cfg) {
@@ -901,6 +934,15 @@ pub fn oracle_c12_mixed(c: &AstCase, obs: &mut Obs, kf1: bool, kf7: bool) -> Ver
     if !same {
         let k = exp.iter().zip(got.iter()).take_while(|((e, strict), g)| if *strict { e == *g } else { e.trim_start_matches([' ', '\t']) == g.trim_start_matches([' ', '\t']) }).count();
         vfail!("non-blank output line {k} is {:?}, expected {:?} (lines inside an unwrapped body move left by min(first inner indent - tag indent, own indent - tag indent); everything else keeps its text){}", got.get(k), exp.get(k).map(|e| &e.0), show(src, &out));
+    }
+    // "only spaces and tabs are ever consumed": whatever the dedent, a line inside an unwrapped body never has MORE leading
+    // blanks than it has in the text after removal (also where the exact amount is not asserted)
+    for (k, (g, l)) in got.iter().zip(in_body_lead.iter()).enumerate() {
+        if let Some(l) = l {
+            if lead(g) > *l && !(kf1_hit && k == 0) {
+                vfail!("non-blank output line {k} {:?} has {} leading blanks, but only {l} in the text after removal: a line inside an unwrapped body never gains indentation{}", g, lead(g), show(src, &out));
+            }
+        }
     }
     if nt || (!blocks.is_empty() && r.elems.iter().any(|e| e.inline)) {
         obs.class("unwrapped-body-with-inline-elements");
